@@ -101,6 +101,7 @@ def run(repo, rep):
     aa = repo.mod("architecture_allocator")
     gen = repo.mod("register_command_stream_generator")
     api = repo.mod("api")
+    rule_round3(repo, rep, aa)
     rule_layout(repo, rep, aa)
     rule_validity(repo, rep, aa, gen, api)
     rule_siblings(repo, rep, aa, gen, api)
@@ -108,6 +109,58 @@ def run(repo, rep):
 
 
 # ------------------------------------------------------------------ b, c
+
+
+def rule_round3(repo, rep, aa):
+    """Accumulator width table, the block the search records, and the traversal heuristic shared with the weight compressor."""
+    from ..absint import Interp, Unknown
+    from ..tables import enum_of
+
+    site = f"{AA}:_acc_type"
+    it = Interp(repo, aa)
+    ops_mod = repo.mod("operation")
+    members = [n_.targets[0].id for n_ in ops_mod.cls("NpuBlockType").body if isinstance(n_, ast.Assign) and isinstance(n_.targets[0], ast.Name)]
+    if len(members) < 6:
+        raise AnalysisError("NpuBlockType members not found")
+    from ..absint import EnumMember
+
+    cls = ops_mod.cls("NpuBlockType")
+    from ..astutil import enum_members
+
+    shram = {}
+    for k_, v_ in enum_members(repo.mod("architecture_features").cls("SHRAMElements")).items():
+        if isinstance(v_, int) and v_ not in shram and k_ != "Last":
+            shram[v_] = k_
+    n = 0
+    wrong = []
+    for mem in members:
+        for bits in (8, 16, 32):
+            for scaled in (True, False):
+                em = EnumMember(ops_mod, cls, mem, None)
+                ps = list(it.run("_acc_type", lambda em=em, bits=bits, scaled=scaled: ([em, bits, scaled], {})))
+                if len(ps) != 1 or ps[0].kind != "return":
+                    raise AnalysisError(f"_acc_type({mem}, {bits}, {scaled}) not evaluable: {[(p.kind, p.value, p.decisions) for p in ps][:2]}")
+                got = ps[0].value
+                got = shram.get(got, got) if isinstance(got, int) else str(got).split(".")[-1]
+                want = "Acc40" if (bits == 16 and mem != "Pooling" and scaled) else "Acc32"
+                n += 1
+                if got != want:
+                    wrong.append((mem, bits, scaled, got))
+    rep.check(not wrong, "C15-c", site, f"accumulators are 40 bit exactly for scaled 16-bit IFMs of non-pooling operators ({n} combinations of block type, IFM bits, scaling)",
+              f"{wrong[:3]}: the accumulator partition is sized (and ACC_FORMAT emitted) for the narrower type")
+    fb = aa.func("find_block_config")
+    rec = [s_ for s_ in ast.walk(fb) if isinstance(s_, ast.Assign) and norm(s_.targets[0]) == "config.ofm_block"]
+    rep.check(len(rec) == 1 and norm(rec[0].value) == "Shape4D(1, height, width, depth)", "C15-a", f"{AA}:find_block_config", "the block recorded for the best configuration is the candidate (height, width, depth) of the search loops",
+              (str(norm(rec[0].value)) if rec else "") + ": the variable was meanwhile re-fitted to the OFM (height clamped for the one-row optimisation); the recorded block is no multiple of the micro-block")
+    ck = aa.func("_choose_kernel_method")
+    ke = [s_ for s_ in ast.walk(ck) if isinstance(s_, ast.Assign) and norm(s_.targets[0]) == "kernel_elements"]
+    wc = repo.mod("weight_compressor").func("encode_weight_and_scale_tensor")
+    ks = [s_ for s_ in ast.walk(wc) if isinstance(s_, ast.Assign) and norm(s_.targets[0]) == "kernel_size"]
+    undilated = ("kernel.elements_wh()", "weights.shape[0] * weights.shape[1]", "kernel.width * kernel.height", "kernel.height * kernel.width")
+    ok = len(ke) == 1 and len(ks) == 1 and any(norm(ke[0].value) == u for u in undilated) and any(norm(ks[0].value) == u for u in undilated)
+    rep.check(ok, "C15-d", f"{AA}:_choose_kernel_method / ethosu/vela/weight_compressor.py:encode_weight_and_scale_tensor",
+              "scheduler and weight compressor weigh part-kernel-first against depth-first with the same (undilated) kernel element count",
+              f"scheduler: {norm(ke[0].value) if ke else '?'}; compressor: {norm(ks[0].value) if ks else '?'}: the traversal the compressor programs differs from the one the block was sized for, and the selected block no longer fits")
 
 
 def rule_layout(repo, rep, aa):
